@@ -183,7 +183,7 @@ def parse_swc(
     re_swc = re.compile(rf"^\s*{re_swc_cols_str}((?:\s+{RE_FLOAT_NC})*)\s*$")
 
     last_group = 7 + len(extras) + 1
-    ignored_comment = f"# {' '.join(names.cols())}"
+    ignored_comment = f" {' '.join(names.cols())}"
     flag = True
 
     comments = []
